@@ -256,6 +256,7 @@ func (g *gen) multi(o multiOpts) *layout {
 		}
 		traks = append(traks, t)
 	}
+	decoyTrex(init)
 	init.Moov.Mvhd.CreationTime = uint64(g.u())
 	init.Ftyp = mp4.NewFtyp("cmfc", g.u(), []string{"dash", "iso6"})
 	rt := refOfTraks(traks)
